@@ -439,8 +439,12 @@ spif_socket_accept(spif_socket_t self)
     /* We got one.  Create and return a new socket object for the accepted connection. */
     tmp = spif_socket_dup(self);
     if (tmp->fd >= 0) {
+        int ret;
+
         /* dup() gave the copy a duplicate of the listening descriptor; it is not wanted here. */
-        close(tmp->fd);
+        do {
+            ret = close(tmp->fd);
+        } while ((ret < 0) && (errno == EINTR));
     }
     tmp->fd = newfd;
     SPIF_SOCKET_FLAGS_CLEAR(tmp, (SPIF_SOCKET_FLAGS_LISTEN | SPIF_SOCKET_FLAGS_HAVE_INPUT | SPIF_SOCKET_FLAGS_CAN_OUTPUT));
